@@ -1244,6 +1244,85 @@ fn multi_class_model_near_ties(a: &Args, rep: &mut Rep) -> Result<(), String> {
     multi_class_run_pool("multi_class_model_near_ties", a, rep, pool, members, a.instance % 3 == 1)
 }
 
+/// MultiClassModel whose member list carries REPEATED labels: every labelling of 3 and 4 members
+/// over two labels x every order of the probability levels (low, high, mid[, mid2]); the levels
+/// scale a common per-row base probability, so the members' order is the same on every row.
+/// Oracle unchanged: the returned label is the label of a most probable member (exact f32
+/// comparison of the members' own predictions), batch == single rows, in-place == plain.
+fn multi_class_model_repeated_labels(a: &Args, rep: &mut Rep) -> Result<(), String> {
+    use lvmc_core::enumerate as en;
+    rep.bump("entry_without_batch_sweep", 1);
+    let levels = [0.30f32, 0.90, 0.50, 0.70];
+    let base = TinyScorer { w: vec![0.3, 0.4], bias: 1.0, ulps: 0, add: 0.0, factor: 1.0 };
+    let pool = vec![vec![1.0, 0.0], vec![-0.5, 0.8], vec![1.0, 0.0], vec![-0.5, -0.8], vec![0.3, 0.2], vec![2.0, -1.0]];
+    let xq = Array2::from_shape_fn((6, 2), |(i, j)| pool[i][j]);
+    let mut configs: Vec<(Vec<usize>, Vec<usize>)> = Vec::new(); // (labels, level order)
+    for m in [3usize, 4] {
+        for lab in en::sequences(m, 2) {
+            for perm in en::permutations(m) {
+                configs.push((lab.iter().map(|l| 10 * (l + 1)).collect(), perm));
+            }
+        }
+    }
+    let share: Vec<usize> = (0..configs.len()).filter(|i| i % 3 == a.instance % 3).collect();
+    for ci in share {
+        let (labels, perm) = &configs[ci];
+        let members: Vec<(usize, TinyScorer)> = labels.iter().zip(perm.iter()).map(|(l, &k)| (*l, TinyScorer { factor: levels[k], ..base.clone() })).collect();
+        let model: MultiClassModel<Array2<f64>, usize> = if ci % 2 == 0 {
+            members.clone().into_iter().collect()
+        } else {
+            MultiClassModel::new(members.iter().cloned().map(|(l, m)| (l, Box::new(m) as Box<dyn PredictInplace<Array2<f64>, Array1<Pr>>>)).collect())
+        };
+        let distinct_labels = labels.iter().collect::<std::collections::BTreeSet<_>>().len();
+        if distinct_labels < labels.len() {
+            rep.bump("multi_class_member_lists_with_repeated_labels", 1);
+        }
+        let probs: Vec<Array1<Pr>> = members.iter().map(|(_, m)| Predict::<&Array2<f64>, Array1<Pr>>::predict(m, &xq)).collect();
+        let report = |rep: &mut Rep, form: &str, row: usize, got: Option<usize>, msg: String| {
+            let cj = lvmc_core::json!({"entry": "multi_class_model_repeated_labels", "instance": a.instance, "max_len": a.max_len,
+                "only": {"config": ci, "form": form, "row": row}, "member_labels": labels, "member_level_order": perm, "query_row": pool[row], "observed": got});
+            rep.push(lvmc_core::Violation::new(format!("multi_class_model_repeated_labels.{}", if form == "batch" || form == "single_row" { "composite.label_is_not_of_a_most_probable_member" } else { "form_differs" }), msg, cj));
+        };
+        // whole batch, single rows, in-place into a poisoned target
+        let batch = lvmc_core::guarded(|| Predict::<&Array2<f64>, Array1<usize>>::predict(&model, &xq));
+        rep.evals += 1;
+        rep.nontrivial += 1;
+        let batch = match batch {
+            Ok(b) if b.len() == 6 => b,
+            other => {
+                report(rep, "batch", 0, None, format!("members {:?} levels {:?}: batch prediction failed / wrong length: {:?}", labels, perm, other.map(|b| b.len())));
+                continue;
+            }
+        };
+        for i in 0..6 {
+            let pr: Vec<f32> = probs.iter().map(|p| *p[i]).collect();
+            let best = pr.iter().cloned().fold(f32::MIN, f32::max);
+            let admissible: Vec<usize> = labels.iter().zip(pr.iter()).filter(|(_, p)| **p == best).map(|(l, _)| *l).collect();
+            rep.bump("multi_class_rows_checked", 1);
+            if !admissible.contains(&batch[i]) {
+                report(rep, "batch", i, Some(batch[i]), format!("member labels {:?} with probabilities {:?} on row {}: label {} returned, the most probable member carries {:?}", labels, pr, i, batch[i], admissible));
+            }
+            rep.evals += 2;
+            rep.nontrivial += 2;
+            let one = lvmc_core::guarded(|| Predict::<&Array2<f64>, Array1<usize>>::predict(&model, &xq.slice(ndarray::s![i..i + 1, ..]).to_owned()));
+            match one {
+                Ok(o) if o.len() == 1 && admissible.contains(&o[0]) && o[0] == batch[i] => {}
+                other => report(rep, "single_row", i, other.as_ref().ok().and_then(|o| o.get(0).copied()), format!("member labels {:?} with probabilities {:?}: row {} alone gives {:?}, in the batch {}, admissible {:?}", labels, pr, i, other.map(|o| o.to_vec()), batch[i], admissible)),
+            }
+        }
+        let inplace = lvmc_core::guarded(|| {
+            let mut y = Array1::from_elem(6, 987_654_321usize);
+            model.predict_inplace(&xq, &mut y);
+            y
+        });
+        if inplace.as_ref().ok() != Some(&batch) {
+            report(rep, "inplace_poisoned_target", 0, None, format!("member labels {:?} levels {:?}: predict_inplace gives {:?}, predict gives {:?}", labels, perm, inplace.map(|y| y.to_vec()), batch.to_vec()));
+        }
+        rep.bump("multi_class_repeated_label_configurations", 1);
+    }
+    Ok(())
+}
+
 pub fn registry() -> Vec<Entry> {
     macro_rules! ent {
         ($x:expr; $($f:ident),* $(,)?) => { vec![$(Entry { name: stringify!($f), extreme_ok: $x, run: $f }),*] };
@@ -1260,7 +1339,7 @@ pub fn registry() -> Vec<Entry> {
     ];
     v.extend(ent![false;
         svm_bool_linear_on_hyperplane, svm_one_class_on_boundary, logistic_binary_threshold_on_row, kmeans_equidistant_row,
-        decision_tree_row_on_split_threshold,
+        decision_tree_row_on_split_threshold, multi_class_model_repeated_labels,
     ]);
     v
 }
